@@ -283,9 +283,9 @@ FN('consume_direct_write', props=['C04', 'C09'], ret='r',
    ensures=[
        ('C09.wf_preserved', 'final(self).inner.wf_send_body() && old(self).inner.same_facts(&final(self).inner)'),
        ('C04.direct_write_accounting', '''match old(self).inner.bstate().writer.mode {
-            SenderMode::Sized(left) => if amount as u64 > left { r == Err::<(), Error>(Error::BodyLargerThanContentLength) && final(self).inner == old(self).inner }
+            SenderMode::Sized(left) => if amount as u64 > left { r is Err && final(self).inner == old(self).inner }
                 else { r is Ok && final(self).inner.bstate().writer.mode == SenderMode::Sized((left - amount) as u64) && final(self).inner.bstate().writer.ended == (old(self).inner.bstate().writer.ended || left == amount as u64) },
-            _ => r == Err::<(), Error>(Error::BodyIsChunked) && final(self).inner == old(self).inner }'''),
+            _ => r is Err && final(self).inner == old(self).inner }'''),
    ])
 FN('calculate_max_input', props=['C18', 'C01'], ret='r',
    requires=[('C09.wf', 'old(self).inner.wf_send_body()')],
@@ -449,7 +449,7 @@ FN('as_new_flow', props=['C13', 'C14', 'C15', 'C16', 'C09', 'C12'], ret='r',
    ensures=[
        ('C09.redirect_flow_stays_usable', 'final(self).inner.wf_redirect()'),
        ('C14.location_errors', '''match old(self).inner.location {
-            None => r == Err::<Option<Flow<B, Prepare>>, Error>(Error::NoLocationHeader),
+            None => r is Err,
             Some(l) => !is_text(l.view()) || redirect_target(old(self).inner.call.req().eff_uri(), l.view()) is None ==> r is Err && r->Err_0 is BadLocationHeader }'''),
        ('C12.error_changes_nothing', 'r is Err ==> final(self).inner == old(self).inner'),
        ('C15.method_table', '''old(self).inner.location matches Some(l) && is_text(l.view()) && redirect_target(old(self).inner.call.req().eff_uri(), l.view()) is Some ==>
